@@ -119,6 +119,9 @@ func (x *xtr) expr(e ast.Expr) xval {
 				return xval{ty: tCon, c: -v.c, s: fmt.Sprint(-v.c)}
 			}
 			if v.ty.k == kInt {
+				if x.sp.WrapInt {
+					return xval{s: "Go.wrap64 (-" + paren(v.s) + ")", ty: tInt}
+				}
 				return xval{s: "(-" + paren(v.s) + ")", ty: tInt}
 			}
 		}
@@ -254,7 +257,12 @@ func (x *xtr) binary(t *ast.BinaryExpr) xval {
 	case token.ADD, token.SUB, token.MUL:
 		op := t.Op.String()
 		switch ty.k {
-		case kInt, kU64:
+		case kInt:
+			if x.sp.WrapInt {
+				return xval{s: fmt.Sprintf("Go.wrap64 (%s %s %s)", as, op, bs), ty: ty}
+			}
+			return xval{s: fmt.Sprintf("(%s %s %s)", as, op, bs), ty: ty}
+		case kU64:
 			return xval{s: fmt.Sprintf("(%s %s %s)", as, op, bs), ty: ty}
 		case kStr:
 			if t.Op == token.ADD {
@@ -374,6 +382,12 @@ func (x *xtr) call(c *ast.CallExpr) xval {
 		return xval{s: x.applyFn(c, name, ft), ty: ft.results[0]}
 	}
 	switch name {
+	case "min", "max":
+		need(2)
+		a, b := x.expr(c.Args[0]), x.expr(c.Args[1])
+		if (a.ty.k == kInt || a.ty.k == kConst) && (b.ty.k == kInt || b.ty.k == kConst) {
+			return xval{s: fmt.Sprintf("%s %s %s", name, paren(x.co(c.Args[0], a, tInt)), paren(x.co(c.Args[1], b, tInt))), ty: tInt}
+		}
 	case "strings.Split":
 		need(2)
 		sep, ok := c.Args[1].(*ast.BasicLit)
